@@ -2,3 +2,5 @@ import WrglModel.Props.C02
 #print axioms Wrgl.C02_same_content_same_id
 #print axioms Wrgl.C02_injective
 #print axioms Wrgl.C02_no_change_detected
+#print axioms Wrgl.C02_key_change_changes_id
+#print axioms Wrgl.C02_joined_key_names_ambiguous
